@@ -36,6 +36,10 @@ type Scn struct {
 	Imgs  map[string]string `json:"imgs,omitempty"`  // images of the render context
 	// tree (cli stream): one row of the kubectl-package config-resolution decision table.
 	Cli *CliScn `json:"cli,omitempty"`
+	// tmpl (render stream): templates t0..tk as sequences of -1 (emit a mark) / n >= 0 (include t<n>),
+	// and the body of the executed template file
+	Prog  [][]int `json:"prog,omitempty"`
+	Entry []int   `json:"entry,omitempty"`
 }
 
 // CliScn describes a package on disk (manifest scopes, config schema, test templates) plus the
